@@ -301,3 +301,9 @@ def r6(rr, repo):
         ok = isinstance(v, ast.Call) and U(v.func) == 'all' and 'self.outs_required' in U(v) and ' in ' in U(v)
         rr.ob('the permission to send is initialised from all(id in connected ids for id in self.outs_required)', ok, za.mod, first.node, witness=first.args[0][:200], key='outs-required')
     rr.floor('initialisations of do_send', n, 1, za.mod, za.S_poll)
+
+
+@rule('C03.R7', 'no frame is silently dropped by a reused id: the state hand-over discipline of C02.R7 (a second send() without a recv() must not reuse the consumed id)')
+def r7(rr, repo):
+    from .c02 import r7 as c02r7
+    c02r7(rr, repo)
